@@ -137,7 +137,7 @@ class KDIjepaMaskCollator(KDSingleCollator):
         # create mask
         mask = torch.zeros((self.seqlen_h, self.seqlen_w), dtype=torch.int32)
         mask[top:bot, left:right] = 1
-        mask = mask.flatten().nonzero().squeeze()
+        mask = mask.flatten().nonzero().squeeze(1)
         # create complement
         mask_complement = torch.ones((self.seqlen_h, self.seqlen_w), dtype=torch.int32)
         mask_complement[top:bot, left:right] = 0
@@ -164,5 +164,5 @@ class KDIjepaMaskCollator(KDSingleCollator):
                 break
             # increase tries (relax constraint every self.tries tries)
             tries += 1
-        mask = mask.squeeze()
+        mask = mask.squeeze(1)
         return mask
